@@ -110,7 +110,8 @@ SetLen == /\ CanTamper /\ Len(env) >= 3
                            Step("setlen", "", 0, LenClass(x, Len(env))))
 
 \* one armour character replaced by another of the alphabet: 6 bits of one
-\* byte or of two neighbouring bytes change
+\* byte or of two neighbouring bytes change (the step names the cell of the
+\* first byte that changes)
 ASubst == /\ CanTamper
           /\ \E p \in 1..Len(env) : \E c \in Corrupted(env[p]) :
                \/ Tampered([env EXCEPT ![p] = c], Step("a_subst", env[p].r, env[p].k, ""))
